@@ -270,7 +270,7 @@ struct MangledPart<'a> {
 /// See full list of letters above.
 ///
 /// For each part, the length appears first, followed by the text itself.
-/// If the text itself is just a number, then the length of the text will not appear.
+/// If the text starts with a digit (or an underscore) an underscore is put in front of it.
 ///
 /// Ends with "E"
 fn create_mangled_for_file(
@@ -331,17 +331,21 @@ fn create_mangled_for_file(
 }
 
 fn add_part(mangled: &mut String, part: &MangledPart) {
-    if part.text.starts_with(|ch: char| ch.is_ascii_digit()) {
-        // if the part text starts with a number,
-        // then prepend a lowercase version of the code
+    if part
+        .text
+        .starts_with(|ch: char| ch.is_ascii_digit() || ch == '_')
+    {
+        // a part is written as its length followed by its text, so the text can't start with
+        // a digit or nobody could tell where the length ends. an underscore is put in front of
+        // such a text (and counted in the length).
+        //
+        // a text which already starts with an underscore gets one too. otherwise
+        // "/src/1/file.capy" and "/src/_1/file.capy" would both turn into `2_1`
         mangled.push_str(&(part.text.len() + 1).to_string());
-        mangled.push(part.kind.to_code().to_ascii_lowercase());
+        mangled.push('_');
         mangled.push_str(&part.text);
 
-        // TODO: what happens in the following situation (where both files exist):
-        // - "/src/1/file.capy"
-        // - "/src/f1/file.capy"
-        // similarly, what happens if the folder contains a '.' which gets converted to a dash
+        // TODO: what happens if the folder contains a '.' which gets converted to a dash
         // by `FileName::get_components`:
         // - "/src/program.app/file.capy"
         // - "/src/program-app/file.capy"
